@@ -844,10 +844,19 @@ class Manager:
                 self.unregisterTask((event, task, parent))
                 if parent:
                     value = parent.throw(value.extract())
-                    # the caller handled the exception and yielded again
-                    # (possibly None): keep stepping it
-                    value_generator = (val for val in (value,))
-                    self.registerTask((event, value_generator, parent))
+                    if isinstance(value, GeneratorType):
+                        # the caller handled the exception and went on to
+                        # another call()/wait(): same as in the CallValue
+                        # case above (we loose a yield but we gain one)
+                        task_state = next(value)
+                        task_state.task_event = event
+                        task_state.task = value
+                        task_state.parent = parent
+                    else:
+                        # the caller handled the exception and yielded again
+                        # (possibly None): keep stepping it
+                        value_generator = (val for val in (value,))
+                        self.registerTask((event, value_generator, parent))
                 else:
                     raise value.extract()
             elif isinstance(value, Sleep):
